@@ -85,6 +85,21 @@ fn nt_any(_s: &RunStats) -> bool {
     true
 }
 
+fn gen_w5(prop: &str, seed: u64, _tier: Tier, _idx: u64) -> Scenario {
+    Scenario::W5(crate::w5gen::generate(prop, seed))
+}
+const REAL_PY: &[&str] = &[
+    "bourse.core extension module (PyO3 0.20, rust/ crate) built from /repo working tree, imported by real CPython 3.11 (python3-vt) with numpy 2.x",
+    "src/bourse/data_processing.py (real source, imported from an assembled package directory)",
+    "bourse-book / bourse-de as the Rust core executing the same calls",
+];
+fn nt_c18(s: &RunStats) -> bool {
+    s.ops >= 5 && p(s, "object_with_trades") >= 1
+}
+fn nt_c19(s: &RunStats) -> bool {
+    p(s, "layout_calls_checked") >= 3 && p(s, "asymmetric_two_sided_book_at_end") >= 1
+}
+
 fn nt_c01(s: &RunStats) -> bool {
     p(s, "op_with_trades") >= 1 && p(s, "partial_fill_of_queue_head") >= 1 && p(s, "same_price_fifo_consumed_2plus") + p(s, "same_price_depth_3plus") >= 1
 }
@@ -119,6 +134,7 @@ pub fn specs() -> Vec<CheckSpec> {
             runs_thorough: 12_000_000,
             rule: "seeded histories of create/place/create-and-place/cancel/process_event/set_time on one OrderBook<L> (tick 1..10, L 1..24, clock discipline); refinement against the reference engine after every operation plus a final drain probe. Non-trivial = at least one trade, one partial fill of a queue head and a same-price FIFO of depth >= 2 exercised; distinct = distinct digest of the complete final observation",
             finalize: None,
+            preflight: None,
             nontrivial: nt_c01,
             real: REAL_BOOK,
             stub: NO_STUB,
@@ -133,6 +149,7 @@ pub fn specs() -> Vec<CheckSpec> {
             runs_thorough: 8_000_000,
             rule: "histories incl. modifications, trading halts and snapshot reloads on OrderBook<L> and Market<A,L>; every published view recomputed from get_orders() alone after every operation (no model), mid-price included, non-crossing clause while trading was never disabled. Non-trivial = at least one trade and >= 5 applied operations; distinct = final observation digest",
             finalize: None,
+            preflight: None,
             nontrivial: nt_trades,
             real: REAL_BOOK,
             stub: NO_STUB,
@@ -147,6 +164,7 @@ pub fn specs() -> Vec<CheckSpec> {
             runs_thorough: 8_000_000,
             rule: "histories incl. trading modifications, halts and reset_trade_vol; model-free ledger audit after every operation (prefix immutability, per-trade field checks, per-order volume reconciliation, cumulative counter). Non-trivial = at least one trade and >= 5 applied operations",
             finalize: None,
+            preflight: None,
             nontrivial: nt_trades,
             real: REAL_BOOK,
             stub: NO_STUB,
@@ -161,6 +179,7 @@ pub fn specs() -> Vec<CheckSpec> {
             runs_thorough: 8_000_000,
             rule: "histories dominated by duplicate / stale requests (place, cancel, modify against orders in every status; market orders while halted); lifecycle transition relation on every order after every operation and full-snapshot equality around every redundant request. Non-trivial = at least one redundant request and one trade",
             finalize: None,
+            preflight: None,
             nontrivial: nt_c04,
             real: REAL_BOOK,
             stub: NO_STUB,
@@ -175,6 +194,7 @@ pub fn specs() -> Vec<CheckSpec> {
             runs_thorough: 8_000_000,
             rule: "populated queues then every modify shape (price None/each alphabet price x volume None/smaller/equal/larger) against orders in every status, continuations and a drain probe that turns queue order into trade order; reference engine + model-free modify invariants. Non-trivial = at least one in-place reduction and one re-queuing modification",
             finalize: None,
+            preflight: None,
             nontrivial: nt_c06,
             real: REAL_BOOK,
             stub: NO_STUB,
@@ -189,6 +209,7 @@ pub fn specs() -> Vec<CheckSpec> {
             runs_thorough: 6_000_000,
             rule: "tie mode: histories on OrderBook<L> / Market<A,L> in which the clock is NOT advanced between queue insertions at one price (tie rate up to 80%, narrow alphabet share 60%), with cancels, modifications, aggressors, snapshot reloads and a final drain probe; all monitors of C01-C04/C06 run with the reference engine in FIFO tie semantics; a key-collision twin classifies divergences. Non-trivial = at least one queue insertion that shared (side, price, timestamp) with a resting order",
             finalize: None,
+            preflight: None,
             nontrivial: nt_c05,
             real: REAL_BOOK,
             stub: NO_STUB,
@@ -203,6 +224,7 @@ pub fn specs() -> Vec<CheckSpec> {
             runs_thorough: 2_000_000,
             rule: "crash-restart fault: at seed-chosen operation boundaries the book / market is serialised (to_string, to_string_pretty, save_json compact/pretty) and restored (from_str / load_json) into the same or another level count; the original is dropped (crash) or kept as a twin; immediate complete-observation equality, lock-step equality under all later operations (reference engine too), drain probe; torn-write fault: every strict prefix of a written file must be rejected by load_json. Non-trivial = at least one restart or twin and at least one trade",
             finalize: None,
+            preflight: None,
             nontrivial: nt_c07,
             real: REAL_BOOK,
             stub: NO_STUB,
@@ -217,6 +239,7 @@ pub fn specs() -> Vec<CheckSpec> {
             runs_thorough: 3_000_000,
             rule: "sequences of steps on Env<L> / MarketEnv<A,L> with batches (0..12) of interacting new / cancel / modify instructions (several per order, targets created in the same step, duplicates, stale ids), steered and unsteered shuffles, halts; after each step the schedule is inferred from arrival / end timestamps and trades, and the belief set of reference-engine states consistent with everything observed is carried on; direct clauses (clock = start + step size, step volume = this step's trades) and a real plain OrderBook replaying the inferred schedule. Non-trivial = at least one step with trades and one step processed in a non-identity order",
             finalize: None,
+            preflight: None,
             nontrivial: nt_c08,
             real: REAL_ENV,
             stub: NO_STUB,
@@ -231,6 +254,7 @@ pub fn specs() -> Vec<CheckSpec> {
             runs_thorough: 200_000,
             rule: "complete simulations (1..200 steps) of every composition of the built-in agent types, single- and multi-asset, combined through the derive macros; digest of all orders, trades, recorded level-2 history and per-step volumes compared across: two in-process runs of the shipped runner, the documented manual loop driven by the harness's seeded generator, a separate OS process under perturbations (progress bar on, shifted heap, other environment / cwd, stderr null / pipe / file, non-main thread), and (guaranteed-activity configurations) 16 distinct seeds not all equal. Non-trivial = at least 2 steps",
             finalize: None,
+            preflight: None,
             nontrivial: nt_ops,
             real: REAL_AGENTS,
             stub: NO_STUB,
@@ -245,6 +269,7 @@ pub fn specs() -> Vec<CheckSpec> {
             runs_thorough: 3_000_000,
             rule: "interleavings of submissions and steps on Env<L> / MarketEnv<A,L>, the bulk of the instructions being ones that would trade / cancel / re-price at once if applied directly; the complete observation of the environment (live book, market data, orders, trades, every recorded series, cached level-2 snapshot) is compared before and after every single submission: nothing may change except one appended order with status New; cached level_2_data() equals the live book's at construction and after every step. Non-trivial = at least two steps and three instructions",
             finalize: None,
+            preflight: None,
             nontrivial: nt_steps,
             real: REAL_ENV,
             stub: NO_STUB,
@@ -259,6 +284,7 @@ pub fn specs() -> Vec<CheckSpec> {
             runs_thorough: 3_000_000,
             rule: "step sequences on asymmetric books (bid and ask volumes, counts and depths differ by construction) for every compiled level count, each asset; after step k every recorded series must have k entries, entry k-1 must equal the value read from the live book (bid series <-> bid getters, level i <-> level i), earlier entries must be unchanged, per-step traded volume = sum of the trades appended / time-stamped in the step. Non-trivial = an asymmetric book recorded and >= 2 steps",
             finalize: None,
+            preflight: None,
             nontrivial: nt_c11,
             real: REAL_ENV,
             stub: NO_STUB,
@@ -273,6 +299,7 @@ pub fn specs() -> Vec<CheckSpec> {
             runs_thorough: 8_000_000,
             rule: "creation requests with arbitrary prices (on/off grid, extremes) through OrderBook and Market at random points of histories, off-grid re-price as a final operation; create Ok <=> price % tick == 0, full-snapshot equality around rejected creations, dense next id, all order prices on the grid, per-level data accounts for resting volume. Non-trivial = at least one off-grid creation request",
             finalize: None,
+            preflight: None,
             nontrivial: nt_c12,
             real: REAL_BOOK,
             stub: NO_STUB,
@@ -287,6 +314,7 @@ pub fn specs() -> Vec<CheckSpec> {
             runs_thorough: 8_000_000,
             rule: "histories with the trading switch toggled at arbitrary points (also constructed halted), crossing placements and re-prices while halted, aggressors after resuming; reference engine with the flag + model-free clauses (no trade while halted, rejected market orders leave the book untouched, a toggle alone changes nothing). Non-trivial = at least one halt and one trade",
             finalize: None,
+            preflight: None,
             nontrivial: nt_c13,
             real: REAL_BOOK,
             stub: NO_STUB,
@@ -301,6 +329,7 @@ pub fn specs() -> Vec<CheckSpec> {
             runs_thorough: 4_000_000,
             rule: "Market<A,L> driven directly (A = 1..4, per-asset tick sizes, colliding local ids) and MarketEnv<A,L> driven through shuffled batches across assets; per-asset stand-alone real OrderBooks receive that asset's operations at the same times (environment: the times inferred by the belief-set oracle); every per-asset and all-asset query must equal the twins' values in asset order, an operation on one asset must leave every other asset's observation unchanged. Non-trivial = trades and >= 5 operations (direct) or a step with trades replayed on the stand-alone books (environment)",
             finalize: None,
+            preflight: None,
             nontrivial: nt_c14,
             real: REAL_ENV,
             stub: NO_STUB,
@@ -315,6 +344,7 @@ pub fn specs() -> Vec<CheckSpec> {
             runs_thorough: 45_000,
             rule: "fully observable batches (every position pinned by an arrival or end timestamp) of sizes 2,3,4,5,6,8,16,32,64; 50 steps per run; deterministic part: two environments given the same generator state and batch size but different instructions (new orders vs. a mix with cancels, other assets, other submission order) must process them in the same positions; statistical part over the whole batch: all n! cells for n<=6, position-by-item and pairwise-order tables for every size, each cell within the exact Bernstein bound with a union bound over all cells (false-alarm probability < 1e-9 per run). Non-trivial: every run",
             finalize: Some(crate::w3stat::finalize),
+            preflight: None,
             nontrivial: nt_any,
             real: REAL_ENV,
             stub: NO_STUB,
@@ -329,6 +359,7 @@ pub fn specs() -> Vec<CheckSpec> {
             runs_thorough: 1_500_000,
             rule: "simulations of the built-in agents in the manual loop, one update call per agent group at a time; the harness reads the instruction queue (verification hook) and the order list before and after every update and checks every created order and every cancellation (grid, range, side of the observed mid-price, volume, trader id, ownership, active when looked at), the deterministic corners of the activity rules (probability 0 / >= 1) and that nothing aborts; generator fault injection (boundary draws 0, all-ones, 1, top bit at sparse indices); tick 1..10, heavy-tailed price distributions (sigma up to 10), empty / one-sided / two-sided starting books, 1..200 steps. Non-trivial = at least 3 agent orders checked",
             finalize: None,
+            preflight: None,
             nontrivial: nt_c16,
             real: REAL_AGENTS,
             stub: NO_STUB,
@@ -343,6 +374,7 @@ pub fn specs() -> Vec<CheckSpec> {
             runs_thorough: 1_500_000,
             rule: "one momentum agent group (single- and multi-asset) under mid-price paths imposed by a harness quoting client (rising, falling, mixed, flat; half-tick mids); the harness recomputes M and demand*tanh(scale*M)/n from the mids it observed; direction of every order must follow the sign of M, nothing when M = 0; at saturated demand (|p| >= 1) exactly n market (and, when order_ratio*|p| >= 1, n limit) orders on that side; mirrored run (path mirrored about a grid level, same seed, market orders only) must swap buys and sells step by step. Non-trivial = steps with positive and with negative momentum",
             finalize: None,
+            preflight: None,
             nontrivial: nt_c17,
             real: REAL_AGENTS,
             stub: NO_STUB,
@@ -351,12 +383,43 @@ pub fn specs() -> Vec<CheckSpec> {
             expected_probes: &["step_M_positive", "step_M_negative", "step_M_zero", "saturated_step", "saturated_limit_step", "mirrored_run"],
         },
         CheckSpec {
+            id: "C18",
+            generate: gen_w5,
+            runs_quick: 2_500,
+            runs_thorough: 150_000,
+            rule: "call scripts (5..120 calls) over bourse.core.OrderBook (constructor, set_time, trading switches, place / cancel / modify, every getter, order_status, save_json_snapshot, order_book_from_json) and bourse.core.StepEnv (constructor with seed, place / cancel / modify, step, trading switches, every property and getter) on asymmetric books, executed call by call by the real extension in CPython and by the Rust core; return value or exception class and the complete observation compared after every call; faults: off-grid prices (ValueError), integers outside the target type in every integer position (2^32, 2^64, negative: OverflowError) which must leave the observation unchanged, snapshots written by Python loaded by Rust and vice versa (pretty / compact) and then driven on, a second interpreter under another PYTHONHASHSEED. Non-trivial = >= 5 calls and trades",
+            finalize: None,
+            preflight: Some(crate::w5::preflight),
+            nontrivial: nt_c18,
+            real: REAL_PY,
+            stub: NO_STUB,
+            assumptions: &["one interpreter (CPython 3.11.7) and one numpy; ids passed to the API refer to existing orders (an unknown id aborts inside the extension by design of the Rust API)", "sampling, not enumeration"],
+            explanation: "differential lock-step of the Python classes against the Rust core, call by call",
+            expected_probes: &["offgrid_price_valueerror", "out_of_range_int_overflowerror", "snapshot_python_to_rust", "snapshot_rust_to_python", "second_pythonhashseed", "object_with_trades", "asymmetric_two_sided_book_at_end"],
+        },
+        CheckSpec {
+            id: "C19",
+            generate: gen_w5,
+            runs_quick: 2_500,
+            runs_thorough: 150_000,
+            rule: "StepEnv and StepEnvNumpy driven with the same seeded batches (asymmetric books: bid and ask volumes from disjoint ranges, several populated levels) for 1..8 steps; after every step each element of StepEnv.level_1_data_array / level_2_data_array and StepEnvNumpy.level_1_data / level_2_data is compared with the quantity the documentation assigns to its index (table transcribed by hand), obtained through independent getters of the Rust core; documented lengths 9 and 45; get_market_data of both environments must have exactly the documented keys bound to the matching Rust series; orders_to_dataframe / trades_to_dataframe (real data_processing.py on a stub pandas) must name column k after field k. Non-trivial = >= 3 layout calls on an asymmetric two-sided book",
+            finalize: None,
+            preflight: Some(crate::w5::preflight),
+            nontrivial: nt_c19,
+            real: REAL_PY,
+            stub: &["pandas (not installable offline): stand-in implementing DataFrame.from_records(columns=), df[col], Series.map, assignment", "tqdm (not installable offline): stand-in for trange"],
+            assumptions: &["the documentation tables in rust/src/step_sim.rs, rust/src/step_sim_numpy.rs, base_agent.py and data_processing.py as transcribed into the harness (w5.rs: l1_doc, l2_doc, market_data_doc, df_*_doc)", "the simulation contributes state diversity only: the property is a layout function of the state"],
+            explanation: "conformance of array / dictionary / data-frame layouts with the documented tables on diverse asymmetric states",
+            expected_probes: &["layout_calls_checked", "asymmetric_two_sided_book_at_end"],
+        },
+        CheckSpec {
             id: "C20",
             generate: gen_shape,
             runs_quick: 20_000,
             runs_thorough: 400_000,
             rule: "a generated catalogue of struct shapes (64 per macro; 1..8 fields, four probe agent types with repetitions, fields that are themselves derived sets up to depth 2, field names not in alphabetical order) for #[derive(AgentSet)] and #[derive(MarketAgentSet)] (instantiated for MarketEnv<1,10>, <2,3>, <3,1>); log of the derived update == log of the hand-written sequence == the sequence implied by the declaration order, draw by draw (one continuous generator stream) and order count by order count (one shared environment), over 1..4 calls and random seeds. Non-trivial: every run; distinct = (macro, shape, instantiation, calls)",
-            finalize: None,
+            finalize: Some(crate::w4probe::finalize),
+            preflight: None,
             nontrivial: nt_any,
             real: &["bourse-macros derive expansions compiled by rustc into the simulator (the real proc-macro from /repo/crates/macros)", "bourse-de Env / MarketEnv, Agent / AgentSet traits"],
             stub: &["probe agents (harness-defined agent types that log their calls) instead of the built-in agents"],
